@@ -332,6 +332,29 @@ theorem ties_dekker_scaled :
         4728779608739020800 ∧ mul_dekker_scale_f64.outs = mulDekkerScaleOuts) := by
   decide +kernel
 
+/-- `mul_dekker(scale=True, fix_overflow=True)`: exact whenever the product of the (scaled-splitter) high halves does
+not exceed the largest finite value.  With this the whole option matrix scale × fix_overflow of `mul_dekker` is covered. -/
+theorem dekker_product_scaled_fix_overflow (q : QFmt) (r : ℚ → ℚ) (hr : IsRN q r) (f : Fmt) (xmb zb oneb cb invb nb lb : Nat) (s t : ℕ) (Xm Lm : ℚ)
+    (hC : (decode f cb).toRat? = some (2 ^ s + 1)) (hXm : (decode f xmb).toRat? = some Xm) (hZ : (decode f zb).toRat? = some 0)
+    (h1 : (decode f oneb).toRat? = some 1) (hi : (decode f invb).toRat? = some (1 / 2 ^ t)) (hN : (decode f nb).toRat? = some (2 ^ t))
+    (hL : (decode f lb).toRat? = some Lm)
+    (h2s : q.p ≤ 2 * s) (h2s2 : 2 * s ≤ q.p + 2) (hs2 : s + 2 ≤ q.p)
+    (kx ky ex ey : ℤ) (hkx1 : 2 ^ (q.p - 1) ≤ |kx|) (hkx2 : |kx| < 2 ^ q.p) (hky1 : 2 ^ (q.p - 1) ≤ |ky|) (hky2 : |ky| < 2 ^ q.p)
+    (hex : q.emin ≤ ex - t) (hey : q.emin ≤ ey - t) (he : q.emin ≤ ex + ey)
+    (x y : ℚ) (hx : x = (kx : ℚ) * 2 ^ ex) (hy : y = (ky : ℚ) * 2 ^ ey) (hxm : |x| ≤ Xm) (hym : |y| ≤ Xm)
+    (hno : |r ((EFT.scaledSplitQ r (2 ^ s + 1) Xm (1 / 2 ^ t) (2 ^ t) y).1 * (EFT.scaledSplitQ r (2 ^ s + 1) Xm (1 / 2 ^ t) (2 ^ t) x).1)| ≤ Lm) :
+    evalQ f r (mulDekkerScaleFix xmb zb oneb cb invb nb lb) mulDekkerScaleFixOuts [x, y] = some [r (x * y), x * y - r (x * y)] :=
+  EFT.mulDekkerScaleFix_prog hr f xmb zb oneb cb invb nb lb Xm Lm hC hXm hZ h1 hi hN hL h2s h2s2 hs2 hkx1 hkx2 hky1 hky2 hex hey he x y hx hy hxm hym hno
+
+theorem ties_dekker_scaled_fix :
+    (mul_dekker_scale_fix_f16.nodes = mulDekkerScaleFix 31680 0 15360 21520 9216 21504 binary16.maxBits ∧
+      mul_dekker_scale_fix_f16.outs = mulDekkerScaleFixOuts) ∧
+    (mul_dekker_scale_fix_f32.nodes = mulDekkerScaleFix 2139090944 0 1065353216 1166018560 964689920 1166016512 binary32.maxBits ∧
+      mul_dekker_scale_fix_f32.outs = mulDekkerScaleFixOuts) ∧
+    (mul_dekker_scale_fix_f64.nodes = mulDekkerScaleFix 9218868437093187584 0 4607182418800017408 4728779608772575232 4485585228861014016
+        4728779608739020800 binary64.maxBits ∧ mul_dekker_scale_fix_f64.outs = mulDekkerScaleFixOuts) := by
+  decide +kernel
+
 /-- the splitting constants of the three formats, as bit patterns, and their values 2^⌈p/2⌉ + 1 -/
 theorem split_constants :
     (decode binary16 21520).toRat? = some (2 ^ 6 + 1) ∧ (decode binary32 1166018560).toRat? = some (2 ^ 12 + 1) ∧
